@@ -255,7 +255,7 @@ def leaves(ctx) -> Dict[str, Func]:
     return out
 
 
-@rule("C01.R2", ["C01", "C06"], min_instances=4, design="3.1")
+@rule("C01.R2", ["C01", "C06", "C02", "C03"], min_instances=4, design="3.1")
 def leaf_scan_agreement(ctx):
     """Index leaves evaluate the same function as the scan path: _test(_path_resolver(stored value))."""
     lv = leaves(ctx)
@@ -269,7 +269,7 @@ def leaf_scan_agreement(ctx):
         direct = [n for n in walk_local(f.node) if isinstance(n, ast.Call) and isinstance(n.func, ast.Name)
                   and n.func.id == qp]
         if not tests and not direct:
-            yield Ob("C01.R2", ["C01"], f"{f.qual} | evaluates the query test", False,
+            yield Ob("C01.R2", ["C01", "C02", "C03"], f"{f.qual} | evaluates the query test", False,
                      "leaf never evaluates query._test or query(...)", f.loc())
             continue
         for t in tests:
@@ -304,7 +304,7 @@ def leaf_scan_agreement(ctx):
                                 ok = False
                                 why = (f"the resolver is applied to `{norm(rc.args[0]) if rc.args else '?'}`, which does "
                                        f"not contain the stored value bound by the loop ({sorted(tn)})")
-            yield Ob("C01.R2", ["C01"], f"{f.qual} | _test argument | {norm(t)}{occ(f, t)}", ok,
+            yield Ob("C01.R2", ["C01", "C02", "C03"], f"{f.qual} | _test argument | {norm(t)}{occ(f, t)}", ok,
                      why or "tested value is the resolver's result", ctx.prog.loc(t))
             # the add must be control-dependent on the test being true and bound by the same loop
             loop = None
@@ -317,7 +317,9 @@ def leaf_scan_agreement(ctx):
                 adds = [c for c in walk_local(loop) if (isinstance(c, ast.Call) and call_name(c) in ("add", "update")
                                                         and isinstance(c.func, ast.Attribute))
                         or (isinstance(c, ast.Assign) and isinstance(c.value, ast.Call)
-                            and call_name(c.value) in ("union",))]
+                            and call_name(c.value) in ("union",))
+                        or (isinstance(c, ast.Assign) and isinstance(c.value, ast.BinOp) and isinstance(c.value.op, ast.BitOr))
+                        or (isinstance(c, ast.AugAssign) and isinstance(c.op, ast.BitOr))]
                 adds = [c for c in adds if not any(isinstance(a_, (ast.For,)) and a_ is not loop and in_subtree(a_, loop)
                                                    and in_subtree(c, a_) and not in_subtree(t, a_) for a_ in ancestors(c))]
                 good = []
@@ -347,13 +349,13 @@ def leaf_scan_agreement(ctx):
                         ok2 = False
                         msg = (f"added positions {sorted(added)} are not bound by the loop that binds the "
                                f"tested value ({sorted(tn)})")
-                yield Ob("C01.R2", ["C01"], f"{f.qual} | add under test | {norm(t, 80)}{occ(f, t)}", ok2, msg,
+                yield Ob("C01.R2", ["C01", "C02", "C03"], f"{f.qual} | add under test | {norm(t, 80)}{occ(f, t)}", ok2, msg,
                          ctx.prog.loc(t))
         # every stored value is examined: no break/return inside a loop that evaluates the test
         for lp in walk_local(f.node):
             if isinstance(lp, (ast.For, ast.While)) and any(t in list(ast.walk(lp)) for t in tests):
                 exits = [x for x in walk_local(lp) if isinstance(x, (ast.Break, ast.Return))]
-                yield Ob("C01.R2", ["C01"], f"{f.qual} | leaf loop examines every stored value | {first_line(lp, 70)}",
+                yield Ob("C01.R2", ["C01", "C02", "C03"], f"{f.qual} | leaf loop examines every stored value | {first_line(lp, 70)}",
                          not exits, "no early exit from the loop" if not exits else
                          f"`{norm(exits[0])}` at line {exits[0].lineno} leaves the loop early: one value for which the "
                          f"path cannot be resolved (or the first hit) hides all later values", ctx.prog.loc(lp))
